@@ -147,11 +147,24 @@ def main():
     extraction = {}
     vac = {'clones': 0, 'failed_as_required': 0}
     cmds = []
-    for u in units:
+    import concurrent.futures as cf
+
+    def work(u):
         rlimit = 30 if tier == 'quick' else 60
-        res = run_unit(u, REPO, rlimit=rlimit, seed=(seed if seed else None))
+        with cf.ThreadPoolExecutor(max_workers=3) as ex:
+            f_main = ex.submit(run_unit, u, REPO, rlimit, (seed if seed else None))
+            f_cens = ex.submit(lambda: _safe_census(u))
+            f_vac = ex.submit(run_vacuity, u)
+            res = f_main.result()
+            cens = f_cens.result()
+            vres = f_vac.result()
         if res.status == 'undecided' and 'resource limit' in res.reason:
             res = run_unit(u, REPO, rlimit=rlimit * 4, seed=seed + 7)
+        return u, res, cens, vres
+
+    with cf.ThreadPoolExecutor(max_workers=max(1, min(6, len(units)))) as pool:
+        outcomes = list(pool.map(work, units))
+    for (u, res, cens, vres) in outcomes:
         results.append(res)
         cmds.append(res.cmd)
         if res.status == 'undecided':
@@ -172,7 +185,6 @@ def main():
             norm_fired[k] = norm_fired.get(k, 0) + v
         for fi in res.gen.fns:
             if pid in fi.props and not fi.trusted:
-                key = 'rdest::' + fi.qname
                 ms = None
                 for fname, t in res.fn_ms.items():
                     if fname.endswith('::' + fi.qname):
@@ -182,11 +194,6 @@ def main():
                                 'solver_ms': ms})
         for imp in res.gen.imports:
             assumptions.append('unit %s imports the contracts of %s by reference (proved in that unit; external_body here)' % (u, imp))
-        # trusted base census + vacuity clones
-        try:
-            cens = cheat_census(u, REPO)
-        except Exception as e:
-            cens = ['census failed: %s' % e]
         allow_p = os.path.join(VERIF, 'units', u, 'trusted.json')
         if os.path.exists(allow_p):
             allow = set(json.load(open(allow_p)))
@@ -194,7 +201,6 @@ def main():
             if new:
                 undecided.append('%s: trusted base grew (not in units/%s/trusted.json): %s' % (u, u, '; '.join(new[:4])))
         trusted_base.update('%s: %s' % (u, c) for c in cens)
-        vres = run_vacuity(u)
         vac['clones'] += vres[0]
         vac['failed_as_required'] += vres[1]
         if vres[2]:
@@ -306,6 +312,13 @@ def main():
         print('UNDECIDED: no obligations generated for %s' % pid)
         return 2
     return 0
+
+
+def _safe_census(u):
+    try:
+        return cheat_census(u, REPO)
+    except Exception as e:
+        return ['census failed: %s' % e]
 
 
 def run_vacuity(unit):
